@@ -417,7 +417,7 @@ def standard_lean_phase(ctx, search_fn=None):
 
 def report_broken_ties(ctx, found_any):
     """after the search: if ties are broken and the search found no concrete failing input, report so"""
-    if ctx.ties_broken and not found_any:
+    if ctx.ties_broken and not (found_any or getattr(ctx, "found_by_trace", False)):
         ctx.violation("tie", {"what": "proof obligation / translator / correspondence no longer checks and no failing input was found",
                               "broken": ctx.ties_broken, "details": ctx.notes[:5],
                               "lean_log_tail": (ctx.lean or {}).get("build_log_tail", "")[-1500:]}, found_input=False)
